@@ -1058,7 +1058,16 @@ def gen_c16b(rng: random.Random) -> Dict[str, Any]:
     late = None
     if rng.random() < 0.25:
         late = {"name": "lt_late", "cron": rng.choice(CRONS), "time_us": rng.choice(times)}
-    return {"mode": "label_source", "tasks": tasks, "fire_seed": rng.randint(0, 10 ** 9), "nfire": nfire,
+    fire_seed = rng.randint(0, 10 ** 9)
+    # one-shot entries written with an explicit `"cron": None` key (what `model_dump()` of a schedule, or a settings
+    # file, produces): still one-shots - listed with their time, removed after firing.  Decided from a stream of its
+    # own so that the choices above stay what they were for every seed.
+    rng_cn = random.Random(fire_seed ^ 0x5EED17)
+    for t_ in tasks:
+        for e_ in t_["entries"]:
+            if "time_us" in e_ and "cron" not in e_ and rng_cn.random() < 0.3:
+                e_["cron_none"] = True
+    return {"mode": "label_source", "tasks": tasks, "fire_seed": fire_seed, "nfire": nfire,
             "src_startup": rng.random() < 0.5, "late_task": late, "concurrent_list": rng.random() < 0.3,
             "same_func": rng.random() < 0.2,
             "redeclare": (S.to_us(datetime(2031, 3, 1, 12, 0)) + rng.randint(0, 10 ** 9)) if rng.random() < 0.25 else None,
@@ -1108,6 +1117,8 @@ def run_c16b(spec: Dict[str, Any]) -> "tuple[List[Violation], Any]":
                     d["cron_offset"] = e["cron_offset"]
             if "time_us" in e:
                 d["time"] = S.mk_time(e["time_us"], e["tz"])
+                if e.get("cron_none"):
+                    d["cron"] = None
             for k in ("args", "kwargs", "labels"):
                 if k in e:
                     d[k] = copy.deepcopy(e[k])
